@@ -87,7 +87,7 @@ func init() {
 				s.MaxTrials = pick(r, []int{1, 2, 3, 5, 200})
 				s.MaxFailRate = pick(r, []float64{0.5, 0.999, 0.999999})
 				for {
-					cc := genCharCfg(r, charOpt{small: true, budget: 3000, maxLen: 5, maxReq: 3, noEmptied: true})
+					cc := genCharCfg(r, charOpt{small: true, budget: 3000, maxLen: 5, maxReq: 3, noEmptied: r.Chance(0.7)})
 					m := modelChar(cc)
 					if len(m.Req) == 0 || cc.Length < 1 {
 						continue
@@ -219,7 +219,9 @@ func c13Char(c *Ctx, s *C13Spec) {
 			expect, why = refusalExpectation(pf, float64(cfg.Length)*math.Log2(float64(len(m.A))), s.MaxTrials, s.MaxFailRate)
 		}
 		if m.Emptied > 0 {
-			expect = "dontcare"
+			// a required set with no non-excluded member requires nothing (C03: "each required set
+			// that still has a non-excluded member"; the package doc: "Exclusion overrides Require"):
+			// the decision is the one for the remaining requirements
 			c.Probe("exclusion_emptied_a_required_set", 1)
 		}
 	}
@@ -250,6 +252,9 @@ func c13Char(c *Ctx, s *C13Spec) {
 				if len(m.Req) >= 2 && overlapping(m) {
 					key = "refused-honourable-overlapping-required-sets"
 				}
+				if m.Emptied > 0 {
+					key = "refused-honourable-required-set-emptied-by-exclusion"
+				}
 				c.Violate("refused-honourable", key, "%s: Generate refused (%s) after %d draws although the recipe can be honoured: %s (exact single-attempt success probability %s)", desc, res.Err, len(res.Tape.Draws), why, p.FloatString(6))
 				return
 			}
@@ -265,7 +270,7 @@ func c13Char(c *Ctx, s *C13Spec) {
 		}
 	}
 	// (b) SuccessProbability
-	if p != nil && m.Emptied == 0 && cfg.Length >= 1 && cfg.Length <= 64 {
+	if p != nil && cfg.Length >= 1 && cfg.Length <= 64 {
 		sp := under(NewTape(TapeSpec{Mode: "raw"}), func(r *OpResult) { r.F = float64(rec.SuccessProbability()) })
 		c.Eval(1)
 		c.T(sp.tkey())
@@ -278,6 +283,9 @@ func c13Char(c *Ctx, s *C13Spec) {
 			key := "success-probability"
 			if overlapping(m) {
 				key = "success-probability-overlapping-required-sets"
+			}
+			if m.Emptied > 0 {
+				key = "success-probability-required-set-emptied-by-exclusion"
 			}
 			c.Violate("success-probability", key, "%s: SuccessProbability() = %v, the exact fraction of satisfying candidates is %s", desc, sp.F, p.FloatString(8))
 			return
